@@ -478,6 +478,14 @@ func (e *Engine) timeModel(st *State, fn *ssa.Function, full string, args []Valu
 	case "time.Sleep":
 		e.sleepOp(st, site)
 		return nil, true
+	case "time.After":
+		// a channel that delivers one tick; like every timer it is taken only when nothing else is ready
+		chT := fn.Signature.Results().At(0).Type()
+		o := e.newObj(KChan, chT, 1, "timer.C")
+		tick := e.zero(chT.Underlying().(*types.Chan).Elem())
+		st.Heap[o] = &ChanContent{Cap: 1, Count: c.BV(1, 32), Slots: []Value{tick}, Closed: c.False}
+		e.StubsUsed[full+" -> expired-timer model"]++
+		return mkPtr(c, o), true
 	case "(*time.Ticker).Stop":
 		return nil, true
 	case "time.NewTimer", "time.AfterFunc", "time.NewTicker":
